@@ -591,9 +591,70 @@ def cases_c13(ctx, boost):
     return out
 
 
+# =============================================================================== C15
+def bidir_refs(g):
+    out = []
+    for path, key, t in g.all_refs():
+        r = g.s.res(t)
+        if r["caps"]["ser"] and r["caps"]["de"] and g.buildable(t):
+            out.append((path, key, t))
+    return out
+
+
+def cases_c15(ctx, boost):
+    out = []
+    for cfg in ctx.cfgs(("000", "111")):
+        g = ctx.gen(cfg)
+        rng = g.rng
+        for path, key, t in bidir_refs(g):
+            r = g.s.res(t)
+            vals = []
+            if "fields" in r:
+                opt = [i for i, f in enumerate(r["fields"]) if g.s.is_opt_field(r, f) and f["rust"] in r["rust"]["pub_fields"] and f["ser"] != "never"]
+                base = g.rand_val(t, p_opt=1.0)
+                subsets = []
+                if len(opt) <= 6:
+                    subsets = [set(i for j, i in enumerate(opt) if (m >> j) & 1) for m in range(1 << len(opt))]
+                else:
+                    subsets = [set(), set(opt)] + [{i} for i in opt] + [{a, b} for a in opt[:6] for b in opt if a < b][:40]
+                    subsets += [set(rng.sample(opt, rng.randint(0, len(opt)))) for _ in range(10 * boost)]
+                for sub in subsets:
+                    fresh = g.rand_val(t, p_opt=1.0)
+                    slots = [(fresh[1][i] if (i not in opt or i in sub) else None) for i in range(len(fresh[1]))]
+                    # never-serialised members (rp icon) are not re-emitted: leave them unset
+                    slots = [None if r["fields"][i]["ser"] == "never" else s_ for i, s_ in enumerate(slots)]
+                    vals.append(('r', slots))
+            else:
+                vals = [g.rand_val(t, 0.5) for _ in range(6 * boost)]
+            for v in vals:
+                if not g.val_buildable(t, v):
+                    continue
+                out.append(Case("rt", cfg, f"rt {cfg} {key} {show(v)}", f"rt {cfg} {path} {show(v)}", tag="encode→decode"))
+                try:
+                    b = g.s.ref_encode(t, v, canonical=False)
+                except Exception:
+                    continue
+                out.append(Case("rtb", cfg, f"rtb {cfg} {key} {b.hex()}", f"rtb {cfg} {path} {b.hex()}", tag="decode→encode"))
+    return out
+
+
 NOT_YET = {}
 
 PROPS = {
+    "C15": {"ns": "C15", "cases": cases_c15,
+            "level_text": "Proof. G-RT (Ctap/RoundTrip.lean, theorem rt): for every schema of the universe that is well-formed "
+                          "(wf: distinct keys incl. aliases, UTF-8 keys, consistent string/number tables, null-accepting members "
+                          "not of unit type, filter literals agree), every well-typed value and every trailing input, "
+                          "decode(encode v ++ r) = (v, r) — by mutual structural induction over Ty/Fields with a loop invariant "
+                          "for the visit_map loops, no bound on sizes or nesting. Per-run obligations (decide +kernel): wf holds "
+                          "for every bidirectional schema regenerated from the source, in all 8 configurations (3 requests, 3 "
+                          "responses, 21 nested types). reencode: encode(decode(encode v0)) = encode v0. The rp icon exception is "
+                          "the well-typedness clause 'never-serialised members are unset'. Correspondence: encode→decode and "
+                          "decode→encode chains through the real types, all subsets of optional members where <= 6, singletons + "
+                          "pairs + full + random otherwise.",
+            "rule": "every type with both Serialize and Deserialize × member subsets × boundary/random member values; values "
+                    "built through the public API (builders, Default, field assignment) and by decoding reference bytes",
+            "assumptions": ["enumerations and COSE keys are values of their Rust types (in the tables / <= 32-byte coordinates)"]},
     "C13": {"ns": "C13", "cases": cases_c13,
             "level_text": "Proof. UTF-8 theory in Lean (Ctap/Utf8Thm.lean): validUtf8 peels one scalar of 1-4 bytes at a time "
                           "(validUtf8_step), each scalar is one boundary byte + <=3 continuation bytes (scalar_shape), hence "
